@@ -1,6 +1,7 @@
 package main
 
 import (
+	"os/exec"
 	"golang.org/x/tools/go/ssa"
 	"encoding/json"
 	"flag"
@@ -198,6 +199,16 @@ func main() {
 		if *prop == "" {
 			fmt.Fprintln(os.Stderr, "--prop required")
 			os.Exit(2)
+		}
+		if *prop == "C16" {
+			// the nfstypes contracts must be the ones the RFC 1813 grammar generates
+			out, err := exec.Command("python3", filepath.Join(verifDir, "tools", "xdrgen.py"), "--check", "--repo", *repo).CombinedOutput()
+			if err != nil {
+				msg := "the nfstypes contract file is not the one generated from the RFC 1813 XDR grammar: " + strings.TrimSpace(string(out))
+				writeBrokenEvidence(*prop, *tier, msg, time.Since(t0).Seconds())
+				fmt.Printf("VIOLATION property=%s replay=%s obligation=nfstypes/contracts-from-grammar no-failing-input-found\n", *prop, writeTextReplay(*prop, "contracts-from-grammar", msg))
+				os.Exit(1)
+			}
 		}
 		os.Exit(checkProp(P, *prop, *tier, perObl, *verbose, *keep, t0))
 	default:
